@@ -286,7 +286,7 @@ def register(hub):
 
 
 def build_case(fd, rng, tier, i):
-    d = SY.gen_def(rng, max_proc=6, max_flows=12 if tier == "thorough" else 8, self_loops=0.5 if i % 3 == 1 else 0.0)
+    d = SY.gen_def(rng, max_proc=6, max_flows=12 if tier == "thorough" else 8, self_loops=0.5 if i % 3 == 1 else 0.0, big_system=0.04)
     for j, f in enumerate(d.flows):
         f["override"] = f"fl{j:02d}q"
     if i % 5 == 0:
